@@ -11,6 +11,7 @@ WALL = {"quick": 150, "thorough": 1500}
 RULE = ("seeded operation histories (5-40 ops quick, 5-60 thorough) generated from VERIF_SEED*1e6+i by label-keyed choices; "
         "each op is executed on a real StorageServer and on a reference model and compared, plus whole-state cross-checks after "
         "every op; a run is non-trivial when >=3 distinct probe kinds fired; distinct = distinct (op-kind sequence, probe-count) fingerprint")
+RULE += '; one run in forty: a sparse immutable share of 2^32-2 .. 2^32+100000 bytes (the 32-bit length field of the container header saturates), written and read in windows around 0, 2^32 and the end, with lease operations and restarts in between'
 TECHNIQUE = "deterministic simulation: seeded operation/fault histories vs executable reference model, simulated clock"
 LEVEL_TEXT = ("seeded search over operation histories with a step-by-step reference model; sampling, not enumeration — "
               "a clean batch is evidence, not proof")
@@ -24,8 +25,12 @@ ASSUMPTIONS = ["single-process server: operations are atomic w.r.t. each other (
 
 
 def generate(seed, tier):
+    if seed % 40 == 13:
+        return storesim.gen_huge(seed, tier, "C22")        # sparse shares around the 4 GiB mark
     return storesim.gen_case(seed, tier, "imm")
 
 
 def execute(case):
+    if case.get("profile") == "huge":
+        return storesim.exec_huge(case)
     return storesim.execute(case, ("C22",))
